@@ -295,6 +295,7 @@ class Prop:
         all_series = list(real_roots)
 
         violation = None
+        states = []
         value_ops = 0
         cats = set()
         array_or_view = False
@@ -442,10 +443,13 @@ class Prop:
                     fail("evaluated-twice", f"{desc}: element {node} of a well-founded definition evaluated {c} times")
                 if node[1] in pre[node[0]]:
                     fail("precached-evaluated", f"{desc}: pre-cached element {node} was evaluated")
-            for x in all_series:
+            sig = 0
+            for xi, x in enumerate(all_series):
                 for k, v in x._data.items():
                     if v is PENDING:
                         fail("pending-left", f"{desc}: in-flight marker left in {x.name}[{k}]")
+                sig ^= hash((xi, frozenset(x._data)))
+            states.append(format(sig & 0xFFFFFFFFFFFF, "x"))
 
         # cycle length probes (2, 3) – structural, from the edge list
         es = {((e[0], tuple(e[1])), (e[2], tuple(e[3]))) for e in case["edges"]}
@@ -459,7 +463,7 @@ class Prop:
             pass
         digest = batch.digest_of(events)
         return {"violation": violation, "digest": digest, "events": len(events),
-                "nontrivial": value_ops >= 3 and array_or_view and len(cats) >= 2, "counters": counters}
+                "nontrivial": value_ops >= 3 and array_or_view and len(cats) >= 2, "counters": counters, "states": states}
 
     @staticmethod
     def _valid(roots_spec, s, index):
